@@ -22,28 +22,28 @@ variable {P : Stream → Stream → Prop} {N : Stream → Prop} [Good P N] {a : 
   cases q <;> rfl
 
 theorem coreEq_setQueued (st : Stream) (q : QName) (v : Bool) : CoreEq st (st.setQueued q v) := by
-  cases q <;> exact ⟨rfl, rfl, rfl, rfl⟩
+  cases q <;> exact ⟨rfl, rfl, rfl, rfl, rfl⟩
 
 macro_rules | `(tactic| core_tac) => `(tactic| exact coreEq_setQueued _ _ _)
 
 theorem coreEq_notifySend (st : Stream) : CoreEq st st.notifySend.1 := by
   unfold Stream.notifySend
-  cases h1 : st.sendTask <;> dsimp only <;> split <;> exact ⟨rfl, rfl, rfl, rfl⟩
+  cases h1 : st.sendTask <;> dsimp only <;> split <;> exact ⟨rfl, rfl, rfl, rfl, rfl⟩
 theorem coreEq_notifyRecv (st : Stream) : CoreEq st st.notifyRecv.1 := by
-  unfold Stream.notifyRecv; split <;> exact ⟨rfl, rfl, rfl, rfl⟩
+  unfold Stream.notifyRecv; split <;> exact ⟨rfl, rfl, rfl, rfl, rfl⟩
 theorem coreEq_notifyPush (st : Stream) : CoreEq st st.notifyPush.1 := by
-  unfold Stream.notifyPush; split <;> exact ⟨rfl, rfl, rfl, rfl⟩
+  unfold Stream.notifyPush; split <;> exact ⟨rfl, rfl, rfl, rfl, rfl⟩
 theorem coreEq_notifyCapacity (st : Stream) : CoreEq st st.notifyCapacity.1 := by
   unfold Stream.notifyCapacity
   have := coreEq_notifySend { st with sendCapacityInc := true }
-  exact ⟨this.key, this.id, this.state, this.pendingSend⟩
+  exact ⟨this.key, this.id, this.state, this.pendingSend, this.refCount⟩
 theorem coreEq_assignCapacity (st : Stream) (c m : Nat) : CoreEq st (st.assignCapacity c m).1 := by
   unfold Stream.assignCapacity
   simp only
   split
   · have := coreEq_notifyCapacity { st with sendFlow := (st.sendFlow.assignCapacity c).1 }
-    exact ⟨this.key, this.id, this.state, this.pendingSend⟩
-  · exact ⟨rfl, rfl, rfl, rfl⟩
+    exact ⟨this.key, this.id, this.state, this.pendingSend, this.refCount⟩
+  · exact ⟨rfl, rfl, rfl, rfl, rfl⟩
 
 macro_rules | `(tactic| core_tac) => `(tactic| exact coreEq_notifySend _)
 macro_rules | `(tactic| core_tac) => `(tactic| exact coreEq_notifyRecv _)
@@ -78,7 +78,7 @@ macro_rules | `(tactic| ev_step) => `(tactic| with_reducible apply decNumStreams
 theorem isReleased_removable {st : Stream} (h : st.isReleased = true) : Removable st := by
   unfold Stream.isReleased Stream.isClosed at h
   simp only [Bool.and_eq_true] at h
-  exact List.isEmpty_iff.mp h.1.1.1.1.1.1.1.1.2
+  exact ⟨List.isEmpty_iff.mp h.1.1.1.1.1.1.1.1.2, by simpa using h.1.1.1.1.1.1.2⟩
 
 /-- the part of `transition_after` before the release test -/
 def taPrefix (s : Streams) (id : Nat) (isResetCounted : Bool) : Streams :=
@@ -409,11 +409,15 @@ macro_rules | `(tactic| ev_step) => `(tactic| with_reducible apply applyLocalSet
 
 -- ===================================================================== streams.rs (handle bookkeeping)
 
-theorem refInc_ev (h : Evolves P N a s.store) (id : Nat) : Evolves P N a (s.refInc id).store := by
-  unfold Streams.refInc; ev
+theorem refInc_ev {P : Stream → Stream → Prop} {N : Stream → Prop} [GoodRef P N] {a : Store} {s : Streams}
+    (h : Evolves P N a s.store) (id : Nat) : Evolves P N a (s.refInc id).store := by
+  unfold Streams.refInc
+  simp only [crp_store]
+  exact h.mod _ _ (fun st _ => GoodRef.refInc st)
 macro_rules | `(tactic| ev_step) => `(tactic| with_reducible apply refInc_ev)
 
-theorem cloneStreamRef_ev (h : Evolves P N a s.store) (id : Nat) : Evolves P N a (s.cloneStreamRef id).store := by
+theorem cloneStreamRef_ev {P : Stream → Stream → Prop} {N : Stream → Prop} [GoodRef P N] {a : Store} {s : Streams}
+    (h : Evolves P N a s.store) (id : Nat) : Evolves P N a (s.cloneStreamRef id).store := by
   unfold Streams.cloneStreamRef; ev
 macro_rules | `(tactic| ev_step) => `(tactic| with_reducible apply cloneStreamRef_ev)
 
@@ -430,7 +434,8 @@ theorem pollPendingOpen_ev (h : Evolves P N a s.store) (p : Option Nat) (t : Str
   unfold Streams.pollPendingOpen Stream.waitOpen; ev
 macro_rules | `(tactic| ev_step) => `(tactic| with_reducible apply pollPendingOpen_ev)
 
-theorem nextIncoming_ev (h : Evolves P N a s.store) : Evolves P N a s.nextIncoming.1.store := by
+theorem nextIncoming_ev {P : Stream → Stream → Prop} {N : Stream → Prop} [GoodRef P N] {a : Store} {s : Streams}
+    (h : Evolves P N a s.store) : Evolves P N a s.nextIncoming.1.store := by
   unfold Streams.nextIncoming; ev
 macro_rules | `(tactic| ev_step) => `(tactic| with_reducible apply nextIncoming_ev)
 
